@@ -13,7 +13,7 @@
 -/
 import MoThreads.Props.C12
 import MoThreads.Proofs.TreeStop
-import MoThreads.Proofs.TreeReg
+import MoThreads.Proofs.TreeRank
 namespace MoThreads.ThreadTree
 open MoThreads
 
